@@ -77,7 +77,8 @@ class Matcher:
             raise Skip('source order of the arguments of a rebuilt call is unknown')
         return sorted(xs, key=_kpos)
 
-    def __init__(self, root_fst, pure, pat, range_fill=False, ctx=False):
+    def __init__(self, root_fst, pure, pat, range_fill=False, ctx=False, spec=None):
+        self.spec = spec
         self.ctx = ctx
         self.range_fill = range_fill
         self.noncontig = False
@@ -91,6 +92,14 @@ class Matcher:
 
     def match(self, node):
         from fst import FST
+        if self.spec is not None:               # the harness's own matcher on the CPython tree (harness/c18_mini.py)
+            import c18_mini
+            if isinstance(node, (ast.expr_context, ast.operator, ast.unaryop, ast.boolop, ast.cmpop)):
+                return None
+            m = c18_mini.mini(self.spec, node)
+            if m is None:
+                return None
+            return {t: (('whole', node) if v is node else ('node', v)) for t, v in m.items()}
         b = self.map.get(id(node))
         if b is not None:
             f = b.f
@@ -435,13 +444,13 @@ class Ref:
         return r, False
 
 
-def reference(root_fst, src, pat, tmpl_src, cat, nested, count, loop, on, quirk=False, range_fill=False, info=None, ctx=False):
+def reference(root_fst, src, pat, tmpl_src, cat, nested, count, loop, on, quirk=False, range_fill=False, info=None, ctx=False, spec=None):
     """-> (pure result Module, unique, total, set of ids of untouched top-level statements' sources)"""
     pure = ast.parse(src)
     tkind, tmpl = parse_template(tmpl_src, cat)
     if cat == 'expr' and tkind != 'expr':
         raise Skip('template kind')
-    mt = Matcher(root_fst, pure, pat, range_fill, ctx)
+    mt = Matcher(root_fst, pure, pat, range_fill, ctx, spec)
     if info is not None:
         info['matcher'] = mt
     ref = Ref(mt, tkind, tmpl, nested, count, loop, on, quirk)
